@@ -28,11 +28,16 @@ Get == /\ IsEvent("mc.get")
 Pair == /\ IsEvent("mc.pair")
         /\ Report(l, IF Trace[l].got \in {0, 1} THEN {} ELSE {"Inv_C08_NxKeepsPositive"})
         /\ UNCHANGED nhits
+\* C20 at the cache's interface: Store keeps nothing of its caller's key and value buffers (MemCache: the entry's
+\* key and buffer are the cache's own): after the caller has overwritten both, the entry is found and intact
+Keep == /\ IsEvent("mc.keep")
+        /\ Report(l, IF Trace[l].hit /\ Trace[l].intact THEN {} ELSE {"Inv_C20_NoRetainedArg"})
+        /\ UNCHANGED nhits
 Sum == /\ IsEvent("mc.sum")
        /\ IF Trace[l].hits < 1000 \/ Trace[l].stores < 1000 THEN Harness(l, "too few hits or stores") ELSE TRUE
        /\ UNCHANGED nhits
 Crash == IsEvent("crash") /\ Report(l, {"Inv_C07_HitOwnValue"}) /\ UNCHANGED nhits
-Next == Get \/ Pair \/ Sum \/ Crash
+Next == Get \/ Pair \/ Keep \/ Sum \/ Crash
 Spec == Init /\ [][Next]_tvars
 Post == Consumed
 =============================================================================
